@@ -376,6 +376,12 @@ class Sym(object):
     def view(self, *a, **k):
         return self
 
+    def __getitem__(self, idx):
+        # numpy scalars accept [...] and [()]
+        if idx is Ellipsis or idx == ():
+            return self
+        raise IndexError('invalid index to scalar variable.')
+
     def take(self, i, axis=None):
         return self
 
